@@ -410,5 +410,23 @@ def r10_per_module_state(chk):
     chk.floor('C03.R10', 12, 'attributes of the two generators')
 
 
+def r12_fields_not_gated_by_text_switch(chk):
+    from rules.C15 import r7_only_texts_are_gated
+    r7_only_texts_are_gated(chk, rule='C03.R12')
+
+
+def r11_argument_agreement(chk):
+    rels = sorted(r for r in chk.model.modules if r.startswith(('pysmi/codegen/',)))
+    common.argument_agreement(chk, 'C03.R11', rels, floor=40)
+
+
+
+def r13_collectors(chk):
+    ci = chk.model.cls(INTER, 'IntermediateCodeGen')
+    ir.elementwise_collectors(chk, 'C03.R13', ci, ['genRevisions', 'genTime'], 2)
+
+
+
 RULES = [r1_kinds, r2_one_registration, r3_classes, r4_field_provenance, r5_emission, r6_transopers_siblings,
-         r7_json_document, r8_nodetype, r9_revision_time, r10_per_module_state]
+         r7_json_document, r8_nodetype, r9_revision_time, r10_per_module_state, r11_argument_agreement,
+         r12_fields_not_gated_by_text_switch, r13_collectors]
